@@ -104,3 +104,10 @@ claim(
     "Trusted: python ast, bfsa (abstract interpreter, EXC catalogue, facts), spec/discharge.json (per-site reasons), summaries at the boundary to the vendored ECC library (decoder escapes as established under C19; key agreement on validated keys assumed total) and of the AES block functions (licensed by the concrete-control interpretation of C16).",
     "DESIGN.md section 4, C14",
 )
+claim(
+    "C20", "other",
+    "effect analysis (who may write / in-place mutation / aliasing) of the shared attributes of both point classes; publish-last and snapshot-read syntax-tree rules; lock-discipline rules (pairing, guarded-by, first-in/last-out conditions, wiring) on the abstract-interpretation trace of the lock classes",
+    "Decides structural necessary conditions of the two mechanisms: outside the constructors __precompute and __coords of PointJacobi and PointEdwards are only replaced by one plain assignment of a freshly built value, never mutated in place directly or through an alias; the lazily built table is published by the last statement that touches it; each method takes the coordinate tuple as one snapshot (reloads only after scale(), single components only in zero tests); the light switch changes its counter by exactly one strictly between mutex acquire and release on all paths and takes / releases the outer lock iff the counter is 1 after increment / 0 after decrement; RWLock is built from distinct switches and locks and each of its four operations performs the documented lock operations unconditionally in the documented order. 'Under every interleaving' and deadlock freedom are not decided: that requires state-space exploration, which is not static analysis; a naive lock-order graph would report a counter-infeasible cycle.",
+    "Trusted: python ast, bfsa. CPython attribute assignment / tuple load atomicity and threading.Lock are assumed.",
+    "DESIGN.md section 4, C20",
+)
